@@ -19,6 +19,8 @@ pub fn op_name(c: &CrashCase, i: usize) -> &'static str {
         Some(Op::Vacuum) => "vacuum",
         Some(Op::CrashReopen) => "kill+open",
         Some(Op::Doctor { .. }) => "doctor",
+        Some(Op::BeginBatch) => "begin_batch",
+        Some(Op::EndBatch) => "end_batch",
         None => "?",
     }
 }
@@ -64,10 +66,22 @@ pub fn check(c: &CrashCase) -> CheckResult {
     let mut info = CaseInfo::trivial();
     let mut fails: Vec<Fail> = Vec::new();
     let mut kinds: HashSet<&'static str> = HashSet::new();
+    // in-place growth of the embedded log inside the call in flight: the file is extended and the
+    // whole data region shifted before a new TOC exists (signature of a listed finding)
+    let mut growth_in_call = false;
     for k in 0..rec.recs.len() {
         let r = &rec.recs[k];
         if r.is_marker() {
+            if matches!(r, Rec::Begin { .. }) {
+                growth_in_call = false;
+            }
             continue;
+        }
+        if let Rec::Truncate { ino, len } = r {
+            let main = st.names.get(crash::MEM_NAME).copied();
+            if main == Some(*ino) && st.inodes.get(ino).is_some_and(|b| (*len as usize) > b.len() + 32 * 1024) {
+                growth_in_call = true;
+            }
         }
         st.apply(r);
         if matches!(r, Rec::Fsync { .. } | Rec::FsyncDir) {
@@ -100,7 +114,11 @@ pub fn check(c: &CrashCase) -> CheckResult {
             }
             (Err(e), Some(a)) => {
                 let kind = inflight.map(|i| op_name(c, i)).unwrap_or("none");
-                fails.push(Fail::new(format!("C02:unopenable-after-crash-in-{kind}"), format!("{where_}: ops 0..={a} were acknowledged but {e}")));
+                if growth_in_call && kind != "create" {
+                    fails.push(Fail::new("C02:unopenable-after-crash-during-in-place-log-growth", format!("{where_}: ops 0..={a} were acknowledged but {e} (the call in flight was growing the embedded log in place)")));
+                } else {
+                    fails.push(Fail::new(format!("C02:unopenable-after-crash-in-{kind}"), format!("{where_}: ops 0..={a} were acknowledged but {e}")));
+                }
             }
             (Ok(s), _) => {
                 let a = expect(acked);
@@ -156,7 +174,8 @@ pub fn check(c: &CrashCase) -> CheckResult {
 pub fn op() -> impl Strategy<Value = Op> {
     prop_oneof![
         10 => c01::put_spec(2500, 3200, false, true).prop_map(Op::Put),
-        1 => c01::put_spec(2500, 3200, true, false).prop_map(Op::Put),
+        2 => c01::put_spec(2500, 3200, true, false).prop_map(Op::Put),
+        1 => (any::<u32>(), 30_000u32..70_000).prop_map(|(seed, len)| Op::Put(crate::hist::PutSpec::simple(crate::gen::Payload::Blob { seed, len, kind: crate::gen::BlobKind::Random }, 4))),
         3 => c01::upd_spec(1500, 1500, true).prop_map(|mut u| { u.allow_busy = false; Op::Update(u) }),
         3 => any::<u16>().prop_map(|target| Op::Delete { target }),
         5 => Just(Op::Commit),
@@ -173,5 +192,5 @@ pub fn build(ctx: &Ctx) -> Vec<Box<dyn Arm>> {
     ctx.rule("histories (create, then 1..10 (thorough 40) ops: plain / embedded / chunked / log-filling puts, updates, deletes, commits, close+open, vacuum) executed once in a child process under an LD_PRELOAD recorder that logs every write / pwrite / ftruncate / fsync / rename / unlink / create / copy_file_range on the memory's directory together with BEGIN/END markers around every API call; the parent rebuilds the directory after EVERY prefix of that log (process-crash model: completed syscalls persist) and opens it; oracle: Memvid::open succeeds and the frame table + content digests equal the reference state after the acknowledged calls or the one including the in-flight call (references = the same run's kill-copy + recovery after each call); non-trivial = crash strictly inside an API call with at least one call acknowledged before");
     ctx.assume("reference states come from the same recorded run (kill-copy after each call, opened with recovery), so they are correct only if uninterrupted recovery is (C01 decides that against the model)");
     let t = ctx.tier;
-    vec![arm_with("every_prefix", t.pick(20, 300), 8, t.pick(30, 80), move || case(t.pick(10, 40)), check)]
+    vec![arm_with("every_prefix", t.pick(16, 300), 8, t.pick(30, 80), move || case(t.pick(10, 40)), check)]
 }
